@@ -143,7 +143,7 @@ class Sim:
         self.alive = True
         self.loop_error = None
         self._S = S
-        S.new_socket_connection = self._connect
+        self._patch_socket_module()
         self._patch_time()
 
     # -- seams --------------------------------------------------------------------------------
@@ -157,6 +157,63 @@ class Sim:
         H.time = shim
         PS.time = shim
         W.time = shim
+
+    def _patch_socket_module(self):
+        """The lowest seam: the socket module as seen by proxy.common.utils.new_socket_connection
+        (socket.socket(...).connect(addr) for IP literals, socket.create_connection(addr) for names)."""
+        import proxy.common.utils as U
+        import proxy.core.connection.server as S
+        import socket as real
+        sim = self
+        shim = types.SimpleNamespace(**{k: getattr(real, k) for k in dir(real) if not k.startswith('__')})
+
+        def mk_socket(family=real.AF_INET, type=real.SOCK_STREAM, proto=0, fileno=None):
+            s = simnet.SimSocket(sim.world, 'u?')
+            s.family = family
+            s.connector = sim._do_connect
+            return s
+
+        def create_connection(addr, timeout=None, source_address=None, **kw):
+            s = simnet.SimSocket(sim.world, 'u?')
+            sim._do_connect(s, addr, 'create_connection', source_address)
+            return s
+        shim.socket = mk_socket
+        shim.create_connection = create_connection
+        U.socket = shim
+        S.new_socket_connection = U.new_socket_connection
+
+    def _do_connect(self, sock, addr, how_called, source_address=None):
+        host, port = addr[0], addr[1]
+        if how_called == 'create_connection' and (not host or any(ch in host for ch in '[] \t')):
+            self.world.connects.append({'host': host, 'port': port, 'how': 'gaierror', 'via': how_called, 'src': source_address})
+            self.world.ev(ev='connect', host=str(host), port=port, res='gaierror', k=len(self.world.connects))
+            raise socket.gaierror(socket.EAI_NONAME, 'Name or service not known')
+        spec = self.origins.get((host, port), self.origins.get(host, self.default_origin))
+        how = spec if isinstance(spec, str) else spec.get('how', 'accept')
+        n = len(self.world.connects) + 1
+        self.world.connects.append({'host': host, 'port': port, 'how': how, 'via': how_called, 'src': source_address})
+        self.world.ev(ev='connect', host=str(host), port=port, res=how, k=n)
+        if how == 'refuse':
+            raise ConnectionRefusedError(errno.ECONNREFUSED, 'Connection refused')
+        if how == 'timeout':
+            raise socket.timeout('timed out')
+        if how == 'gaierror':
+            raise socket.gaierror(socket.EAI_NONAME, 'Name or service not known')
+        if how == 'unreach':
+            raise OSError(errno.EHOSTUNREACH, 'No route to host')
+        idx = len(self.upstreams) + 1
+        cap = spec.get('cap') if isinstance(spec, dict) else None
+        b = simnet.SimSocket(self.world, 'U%d' % idx)
+        sock.name = 'u%d' % idx
+        sock.peer, b.peer = b, sock
+        sock.cap = cap if cap is not None else self.world.cap
+        b.cap = sock.cap
+        sock.traced = True
+        sock.addr = (host, port)
+        peer = Peer(self, b, 'U%d' % idx, addr=(host, port))
+        self.upstreams.append(peer)
+        if self.origin_setup is not None:
+            self.origin_setup(peer, host, port)
 
     def _connect(self, addr, timeout=None, source_address=None):
         host, port = addr[0], addr[1]
